@@ -47,7 +47,36 @@ type Op struct {
 	Src        string `json:"src,omitempty"`     // copy: full source reference
 	Referrers  bool   `json:"referrers,omitempty"`
 	DigestTags bool   `json:"digest_tags,omitempty"`
-	Tar        string `json:"tar,omitempty"` // import: tar file
+	Tar        string `json:"tar,omitempty"`         // import: tar file
+	RefForm    string `json:"ref_form,omitempty"`    // "" (tag if given, else digest) | tag+digest | bare | digest
+	DescMode   string `json:"desc_mode,omitempty"`   // blob: "" | none | digest-only | size-only | wrong-digest | wrong-size
+	Ctx        string `json:"ctx,omitempty"`         // "" | cancelled (the call gets an already cancelled context)
+	Force      bool   `json:"force,omitempty"`       // copy: ImageWithForceRecursive
+	Fast       bool   `json:"fast,omitempty"`        // copy: ImageWithFastCheck
+	Platform   string `json:"platform,omitempty"`    // copy: ImageWithPlatforms
+	ImportName string `json:"import_name,omitempty"` // import: ImageWithImportName
+	CheckRefs  bool   `json:"check_refs,omitempty"`  // mandel: WithManifestCheckReferrers
+}
+
+// target builds the reference an operation is aimed at.
+func target(r ref.Ref, op Op) ref.Ref {
+	switch op.RefForm {
+	case "bare":
+		return r
+	case "digest":
+		return r.SetDigest(op.Digest)
+	case "tag+digest":
+		if op.Tag != "" && op.Digest != "" {
+			return r.SetTag(op.Tag).AddDigest(op.Digest)
+		}
+	}
+	if op.Tag != "" {
+		return r.SetTag(op.Tag)
+	}
+	if op.Digest != "" {
+		return r.SetDigest(op.Digest)
+	}
+	return r
 }
 
 // Script is the driver input.
@@ -121,10 +150,31 @@ func run(ctx context.Context, rc *regclient.RegClient, dir string, op Op) error 
 	if err != nil {
 		return err
 	}
+	if op.Ctx == "cancelled" {
+		var cancel context.CancelFunc
+		ctx, cancel = context.WithCancel(ctx)
+		cancel()
+	}
 	switch op.Op {
 	case "blob":
 		d := descriptor.Descriptor{}
-		if !op.NoDesc {
+		mode := op.DescMode
+		if op.NoDesc {
+			mode = "none"
+		}
+		switch mode {
+		case "none":
+		case "digest-only":
+			d.Digest = digest.Digest(op.Digest)
+		case "size-only":
+			d.Size = int64(len(op.Data))
+		case "wrong-digest":
+			d.Digest = digest.Digest(op.Digest).Algorithm().FromString("not the content")
+			d.Size = int64(len(op.Data))
+		case "wrong-size":
+			d.Digest = digest.Digest(op.Digest)
+			d.Size = int64(len(op.Data)) + 1
+		default:
 			d.Digest = digest.Digest(op.Digest)
 			d.Size = int64(len(op.Data))
 		}
@@ -136,20 +186,21 @@ func run(ctx context.Context, rc *regclient.RegClient, dir string, op Op) error 
 		if err != nil {
 			return fmt.Errorf("manifest.New: %w", err)
 		}
-		if op.Tag != "" {
-			r = r.SetTag(op.Tag)
-		} else {
-			r = r.SetDigest(op.Digest)
-		}
 		var mo []regclient.ManifestOpts
 		if op.Child {
 			mo = append(mo, regclient.WithManifestChild())
 		}
-		return rc.ManifestPut(ctx, r, m, mo...)
+		return rc.ManifestPut(ctx, target(r, op), m, mo...)
 	case "tagdel":
 		return rc.TagDelete(ctx, r.SetTag(op.Tag))
 	case "mandel":
-		return rc.ManifestDelete(ctx, r.SetDigest(op.Digest))
+		var mo []regclient.ManifestOpts
+		if op.CheckRefs {
+			mo = append(mo, regclient.WithManifestCheckReferrers())
+		}
+		return rc.ManifestDelete(ctx, target(r, op), mo...)
+	case "blobdel":
+		return rc.BlobDelete(ctx, r, descriptor.Descriptor{Digest: digest.Digest(op.Digest)})
 	case "close":
 		return rc.Close(ctx, r)
 	case "copy":
@@ -164,14 +215,27 @@ func run(ctx context.Context, rc *regclient.RegClient, dir string, op Op) error 
 		if op.DigestTags {
 			io = append(io, regclient.ImageWithDigestTags())
 		}
-		return rc.ImageCopy(ctx, src, r.SetTag(op.Tag), io...)
+		if op.Force {
+			io = append(io, regclient.ImageWithForceRecursive())
+		}
+		if op.Fast {
+			io = append(io, regclient.ImageWithFastCheck())
+		}
+		if op.Platform != "" {
+			io = append(io, regclient.ImageWithPlatforms([]string{op.Platform}))
+		}
+		return rc.ImageCopy(ctx, src, target(r, op), io...)
 	case "import":
 		f, err := os.Open(op.Tar)
 		if err != nil {
 			return err
 		}
 		defer f.Close()
-		return rc.ImageImport(ctx, r.SetTag(op.Tag), f)
+		var io []regclient.ImageOpts
+		if op.ImportName != "" {
+			io = append(io, regclient.ImageWithImportName(op.ImportName))
+		}
+		return rc.ImageImport(ctx, target(r, op), f, io...)
 	}
 	return fmt.Errorf("unknown op %q", op.Op)
 }
